@@ -59,7 +59,9 @@ CFG = {
         "On inputs where the arithmetic rounds, the whole search is covered by C12_nn_float for any monotone rounding, and float64 "
         "roundTiesToEven is proved to be one (C12_rne_rounding, on C02.rne / C17's bit-level roundPos); the Rat model saturates at 2^1024 and "
         "starts from +infinity where the code starts from math.MaxFloat64: faithful while every intermediate value stays below 2^1024 - 2^970 "
-        "(beyond: known finding, the code panics / returns nil slots); the nn-round*/specOnly families are judged by the Spec up to 2^-40 relative",
+        "(beyond: known finding, the code panics / returns nil slots); the nn-round*/specOnly families are judged by the Spec up to 2^-40 relative. "
+        "'fl after every -, *, +' (no fused multiply-add): guaranteed by the Go specification since fix 0fdcaaf converts every product explicitly (float64(d * d)); "
+        "checked on every run by cross-compiling the harness for arm64 and inspecting the machine code of index/rtree.minDist/minMaxDist (FMA guard); go tool objdump is trusted for that",
         "sort.Sort acts on the entrySlice only through Len/Less/Swap with indices below Len (sort.Interface contract); then "
         "C12_sort_contract gives the permutation/pairing that the theorems need",
         "the C11 trusted base (tree model, hook, harness)",
@@ -77,6 +79,7 @@ CFG = {
             "ring (all objects on a circle around the query, 1-3 inner objects near the axes; MaxChildren 9..70, 9+ leaves below one node: every branch is "
             "kept by MINMAXDIST pruning and the nearest object sits below a LATE branch in MINDIST order); huge (grid {0..span}*2^e, e = 500/505/508: squared "
             "distances exact in [2^1000, 2^1024)); corpus overflow (coordinates 2^600 apart: known finding); "
+            "thin (nn-round4/5: cluster on tenths plus objects 1e8..2^40 away along one axis - node boxes elongated by 2^27 and more, Spec only); "
             "far clusters: squared distances in [2^51,2^53) that differ by 1..4, closer than the float64 grid of their square roots, at scales 2^-40..2^60) followed by 12-14 queries each: points at box "
             "centres (half-integers), corners, on edges, just outside, far outside, grid points prone to ties, random; k in "
             "{NearestNeighbor, 1, 2, 3, size-1, size, size+3, random in 1..size+3; k = 0 and negative k as correspondence only}. One case = one history with all its queries; class = shape-kind-params-height",
